@@ -44,7 +44,12 @@ def run_case(case: dict) -> dict:
         for j, p in enumerate(case["patches"] if en in case.get("defect_embs", case["embs"]) else []):
             tree = to_tree(apply_patch(doc, p), emb)
             # the reader takes a text or an already parsed tree; one defect in 25 goes through the YAML parser (it dominates the run time)
-            st, v = load(to_text(tree) if (j + case.get("salt", 0)) % 25 == 0 else tree, emb)
+            # one defect in 6 is the SECOND design of its process: the well-formed source is loaded again first and the
+            # tolerance registers it derived (same embedding, same scale) are left in place for the injected document
+            second = (j + case.get("salt", 0)) % 6 == 3
+            if second:
+                load(to_tree(doc, emb), emb)
+            st, v = load(to_text(tree) if (j + case.get("salt", 0)) % 25 == 0 else tree, emb, keep_tolerance=second)
             e = {"op": "defect", "patch": p, "acc": int(st == "ok")}
             if st != "ok":
                 e["exc"] = v
